@@ -6,7 +6,7 @@ CONSTANTS
  KMAX = 3
  PIXTOKS = {0, 1, 3, 4, 5}
  BLENDRULE = "transparency"
- DIRECTED = FALSE
+ DIRECTED = ""
  GEN = TRUE
 INVARIANTS PlaybackExact RectOK Emit
 CHECK_DEADLOCK FALSE
